@@ -412,7 +412,7 @@ func c16Ident(s string) bool {
 		return false
 	}
 	for i, r := range s {
-		if !(r == '_' || unicode.IsLetter(r) || (i > 0 && unicode.IsDigit(r))) || r > 127 {
+		if !(r == '_' || unicode.IsLetter(r) || (i > 0 && unicode.IsDigit(r))) {
 			return false
 		}
 	}
